@@ -39,6 +39,7 @@ class Case:
     src_spelling: str = "abs"  # abs | rel | abs_slash | rel_slash | dotdot
     out_spelling: str = "abs"
     plugin: str | None = None
+    pre: str | None = None
     reach: object = None  # None | "*" | [qualnames]
     step_budget: int | None = None
     hashseed: str = "0"
@@ -115,6 +116,7 @@ def run_batch(cases: list[Case], timeout: float | None = None, steps="reach", en
                     "root": croot,
                     "perturb": c.perturb,
                     "plugin": c.plugin,
+                    "pre": c.pre,
                     "reach": c.reach,
                     "step_budget": c.step_budget,
                     "collect": c.collect,
